@@ -44,6 +44,7 @@ fn main() {
         "c05" => vmc::c05::main(tier),
         "c07" => vmc::c07::main(tier),
         "c08" => vmc::c08::main(tier),
+        "c09" => vmc::c09::main(tier),
         "c17" => vmc::macenum::main(tier),
         "c18" => vmc::keysrel::main(tier),
         x if x.starts_with("dump-") => vmc::props::dump(&x[5..], tier),
